@@ -9,12 +9,14 @@ panics and takes the whole dispatcher process down. This model keeps the object 
              and the `crunch-run --detach` command is outstanding (`pending`);
 * `probe`    a successful, fresh `probeAndUpdate` of a booted worker reporting the uuids `alive`
              (`updateRunning`: adopt from `starting` / detect unknown ones / `closeRunner` the rest);
-* `startDone` the completion closure of `startContainer`: `delete(starting, uuid); running[uuid] = rr`
-             — with the runner object captured at `accept`, whatever happened to it meanwhile.
-
-C14 assumes (A3) that `startDone` comes before the process has been adopted by one probe and
-reported gone by a later one. Without A3 the closure re-inserts a runner that is already closed and
-the next probe panics: `C15_no_self_crash_full_fails` (Props/C15_O1.lean).
+* `startDone` the completion closure of `startContainer`, as fixed by /repo 18910db:
+             `if starting[uuid] != rr { return }; delete(starting, uuid); running[uuid] = rr` — only a
+             runner that is still the one in `starting` is moved.
+* `startDoneOld` the closure before the fix: `delete(starting, uuid); running[uuid] = rr` with the runner
+             object captured at `accept`, whatever happened to it meanwhile. It re-inserted a runner
+             that one probe had adopted and a later probe had closed; the next probe then panicked
+             (`C15_no_self_crash_before_fix_fails`). With the fix no interleaving panics
+             (`C15_no_self_crash`, Props/C15_O1.lean).
 -/
 import ArvVerif.Model.C14_Pool
 namespace ArvVerif.C15
@@ -90,12 +92,16 @@ def accept (w : RW) (u : Uuid) : RW :=
   else { w with starting := insert w.starting u w.next, pending := w.pending ++ [(u, w.next)],
                 next := w.next + 1, state := .running }
 
-/-- completion closure of `startContainer` for the oldest outstanding start of `u` -/
+/-- completion closure of `startContainer` for the oldest outstanding start of `u` (fixed code):
+only a runner that is still the one in `starting` is moved to `running` -/
 def startDone (w : RW) (u : Uuid) : RW :=
   match lookup w.pending u with
   | none => w
-  | some r => { w with starting := erase w.starting u, running := insert w.running u r,
-                       pending := w.pending.filter (fun p => !(p.1 == u && p.2 == r)) }
+  | some r =>
+    let w1 := { w with pending := w.pending.filter (fun p => !(p.1 == u && p.2 == r)) }
+    if lookup w.starting u = some r then
+      { w1 with starting := erase w.starting u, running := insert w.running u r }
+    else w1
 
 def step (w : RW) : RWOp → Option RW
   | .accept u => some (w.accept u)
@@ -108,21 +114,26 @@ def run (w : RW) : List RWOp → Option RW
     | none => none
     | some w1 => run w1 rest
 
+/-- the closure before the fix -/
+def startDoneOld (w : RW) (u : Uuid) : RW :=
+  match lookup w.pending u with
+  | none => w
+  | some r => { w with starting := erase w.starting u, running := insert w.running u r,
+                       pending := w.pending.filter (fun p => !(p.1 == u && p.2 == r)) }
+
+def stepOld (w : RW) : RWOp → Option RW
+  | .accept u => some (w.accept u)
+  | .probe alive => w.probe alive
+  | .startDone u => some (w.startDoneOld u)
+
+def runOld (w : RW) : List RWOp → Option RW
+  | [] => some w
+  | op :: rest => match w.stepOld op with
+    | none => none
+    | some w1 => runOld w1 rest
+
 def fresh : RW := ⟨.idle, [], [], [], [], [], 0⟩
 
 end RW
-
-/-- **A3** as a condition on a script: `startDone u` is not preceded, since the matching `accept u`,
-by a probe that reported `u` gone after an earlier probe had adopted it — checked operationally: at
-the moment of `startDone u` the runner of the outstanding start is not closed. -/
-def a3Run (w : RW) : List RWOp → Prop
-  | [] => True
-  | op :: rest =>
-    (match op with
-     | .startDone u => ∀ r, lookup w.pending u = some r → r ∉ w.closed
-     | _ => True) ∧
-    match w.step op with
-    | none => True
-    | some w1 => a3Run w1 rest
 
 end ArvVerif.C15
